@@ -622,6 +622,29 @@ class K3:
                 else:
                     flat.append(x[0] if isinstance(x, tuple) else x)
             return native_connected(flat) if nm.endswith("CONNECTED") else native_division(flat)
+        if nm == "X_ACTIVE_ACYCLIC":
+            # definitional stand-in for the `acyclic=True` part of active_vertices_connected: [n, m] + n flags + 2m endpoints -
+            # the edges between active vertices contain no cycle.  Vertices whose flag is still unknown count as inactive here,
+            # which can only hide a cycle: False is final, True needs every flag known
+            n_, m_ = ops[0], ops[1]
+            flags = [self.ev(o, val) for o in ops[2:2 + n_]]
+            ends = ops[2 + n_:2 + n_ + 2 * m_]
+            parent = list(range(n_))
+
+            def find(x: int) -> int:
+                while parent[x] != x:
+                    parent[x] = parent[parent[x]]
+                    x = parent[x]
+                return x
+
+            for k in range(m_):
+                a_, b_ = ends[2 * k], ends[2 * k + 1]
+                if flags[a_] is True and flags[b_] is True:
+                    ra, rb = find(a_), find(b_)
+                    if ra == rb:
+                        return False
+                    parent[ra] = rb
+            return None if any(f is None for f in flags) else True
         if nm == "X_VARGROUPS":
             # definitional stand-in for division_connected_variable_groups (graph form): [n, m, size or None] + 2m endpoints + n ids
             n_, m_, size_ = ops[0], ops[1], ops[2]
